@@ -358,20 +358,41 @@ def atom_text(ln):
 
 
 def run_impl(case, info, ranks):
+    """Drive match_packages the way every caller does: collect the KeywordRequest objects and
+    look at them only after the generator has finished (or raised).  A snapshot of each
+    request's keywords is also taken at the moment it is yielded; a request that differs from
+    its snapshot afterwards was changed retroactively (a yielded list aliased with internal
+    state such as `previous`).  The caller's own argument lists are passed as lists and
+    compared afterwards as well.  Anomalies go to case["_anom"]; oracle() reports them."""
     from pkgcore.ebuild.atom import atom
     from pkgcore.ebuild.keywording import match_packages
 
-    requested = [(atom(atom_text(ln)), tuple(ln["written"])) for ln in case["lines"]]
-    ys, term, n = [], None, 0
+    as_list = len(case["lines"]) % 2 == 0     # Sequence[str]: tuples and lists are both legal
+    requested = [(atom(atom_text(ln)), list(ln["written"]) if as_list else tuple(ln["written"]))
+                 for ln in case["lines"]]
+    cc_arg = list(case["cc"]) if as_list else tuple(case["cc"])
+    filt_arg = list(case["filt"]) if as_list else tuple(case["filt"])
+    reqs, snaps, term, n = [], [], None, 0
     try:
-        for pk, kws in match_packages(info["repo"], requested, stable=case["stable"], cc_arches=tuple(case["cc"]),
-                                      only_new=case["only_new"], filter_arch=tuple(case["filt"]),
-                                      allarches=case["allarches"]):
-            ys.append([int(pk.package[1:]), ranks[pk.fullver], [str(k) for k in kws]])
+        for req in match_packages(info["repo"], requested, stable=case["stable"], cc_arches=cc_arg,
+                                  only_new=case["only_new"], filter_arch=filt_arg,
+                                  allarches=case["allarches"]):
+            reqs.append(req)
+            snaps.append([str(k) for k in req.keywords])
     except Exception as e:  # noqa: BLE001
         term = Err(type(e).__name__)
         if type(e).__name__ == "KeywordNotSpecified":
             n = len(e.packages)
+    ys = [[int(r.pkg.package[1:]), ranks[r.pkg.fullver], [str(k) for k in r.keywords]] for r in reqs]
+    anom = []
+    for i, (y, snap) in enumerate(zip(ys, snaps)):
+        if y[2] != snap:
+            anom.append(("changed-after-yield", {"request_index": i, "when_yielded": snap, "after_the_run": y[2]}))
+    if ([list(w) for _, w in requested] != [list(ln["written"]) for ln in case["lines"]]
+            or list(cc_arg) != list(case["cc"]) or list(filt_arg) != list(case["filt"])):
+        anom.append(("caller-arguments-modified", {"requested": [list(w) for _, w in requested],
+                                                   "cc_arches": list(cc_arg), "filter_arch": list(filt_arg)}))
+    case["_anom"] = anom
     return [ys, term, n]
 
 
@@ -388,6 +409,8 @@ def oracle(case, info, res):
         if not isinstance(term, Err) or len(ys) > bad_idx[0]:
             out.append(("rejected", None, {"first_bad_line": bad_idx[0], "yielded": len(ys), "term": term}))
     c2 = dict(case, known=known)
+    for what, d in case.get("_anom", ()):
+        out.append((what, None, d))
     for key, rank, arches in ys:
         vs = info["keys"].get(key, [])
         p = next((q for q in vs if q["rank"] == rank), None)
@@ -535,6 +558,17 @@ def _streams(chk, rng, repos, ranks, ok, corpus):
         for case, res in cases[:: max(1, len(cases) // 3)][:3]:
             chk.sample({"stream": name, "input": describe(case, repos[case["repo"]]), "impl": res})
     chk.cov["outcome_histogram"] = hist
+    # call sequences on the long-lived repository objects: the same request, asked again after
+    # all the other calls, must resolve to the same result (no state carried across calls)
+    again = [cr for name in ("match", "matchbad") for cr in streams[name]]
+    again = again[:40] + rng.sample(again, min(len(again), chk.n(160, 600)))
+    for case, res in again:
+        c = dict(case)
+        res2 = run_impl(c, repos[case["repo"]], ranks)
+        if res2 != res:
+            findings.append(("rerun", "call-sequence", None, case, repos[case["repo"]],
+                             {"first_call": res, "same_call_later": res2}, res2))
+    chk.count("rerun", len(again))
 
     # ------------------------------------------------------------------ sugg / best / prefix
     sugg_cases, sugg_find = [], []
